@@ -92,7 +92,10 @@ def gen_schema(rng, depth):
     out = []
 
     def rec(prefix, d):
-        for k in rng.sample(KEYS, rng.choice([1, 2, 2, 3])):
+        # below the top level a variable (or branch) may be called `time` like any other (a clock variable at
+        # ('global', 'time'), an agent's own time); only the top-level key is the row's time stamp
+        keys = KEYS + ['time'] if prefix else KEYS
+        for k in rng.sample(keys, rng.choice([1, 2, 2, 3])):
             if d > 1 and rng.random() < 0.45:
                 rec(prefix + [k], d - 1)
             else:
